@@ -419,8 +419,8 @@ func ReadRows(cl btpb.BigtableClient, req *btpb.ReadRowsRequest) ReadResult {
 	return ReadRowsCtx(ctx, cl, req, nil)
 }
 
-// ReadRowsCtx is ReadRows with a caller context and an optional per-message callback.
-func ReadRowsCtx(ctx context.Context, cl btpb.BigtableClient, req *btpb.ReadRowsRequest, onMsg func(n int)) ReadResult {
+// ReadRowsCtx is ReadRows with a caller context and an optional per-message callback (message count, last key seen).
+func ReadRowsCtx(ctx context.Context, cl btpb.BigtableClient, req *btpb.ReadRowsRequest, onMsg func(n int, lastKey string)) ReadResult {
 	var res ReadResult
 	stream, err := cl.ReadRows(ctx, req)
 	if err != nil {
@@ -447,7 +447,11 @@ func ReadRowsCtx(ctx context.Context, cl btpb.BigtableClient, req *btpb.ReadRows
 			d.feed(c)
 		}
 		if onMsg != nil {
-			onMsg(res.Messages)
+			last := d.lastKey
+			if d.cur != nil {
+				last = d.cur.Key
+			}
+			onMsg(res.Messages, last)
 		}
 	}
 	if res.Code == codes.OK {
